@@ -38,7 +38,7 @@ def main():
                     default=int(os.environ.get('VERIF_JOBS', '0')) or min(16, os.cpu_count() or 1))
     ap.add_argument('--no-evidence', action='store_true')
     ap.add_argument('--no-minimise', action='store_true')
-    ap.add_argument('--dump', action='store_true', help='print per-run digests (self-test)')
+    ap.add_argument('--dump', help='write per-run records to this file (needs VERIF_RECORD=1; self-test)')
     a = ap.parse_args()
     master = int(os.environ.get('VERIF_SEED', '0') or 0)
     print('check=%s tier=%s VERIF_SEED=%d repo=%s' % (a.id, a.tier, master, core.REPO))
@@ -82,7 +82,8 @@ def main():
         sys.stderr.write('HARNESS-ERROR during batch:\n' + traceback.format_exc())
         return core.EXIT_HARNESS
     if a.dump:
-        print('DIGESTS ' + core.digest_of(sorted(st.digests)) + ' n=%d' % len(st.digests))
+        with open(a.dump, 'w') as f:
+            json.dump({str(k): v for k, v in sorted(st.records.items())}, f)
 
     # ---- violations: minimise, write replay, verify replay, match known findings
     new_violations = 0
